@@ -160,10 +160,14 @@ CLIENT_PROPS = {
         models=[cmodel("capacity", ["M_C02"], AllowEof=True, AllowHandleDrop=True,
                        thorough=dict(Deadlines="{1, 2}", PeerBudget=2)),
                 cmodel("slow-sink", ["M_C02"], SinkMode='"coupled"', thorough=dict(PeerBudget=2)),
-                cmodel("credit-sink", ["M_C02"], SinkMode='"independent"', thorough=dict(PeerBudget=2))],
+                cmodel("credit-sink", ["M_C02"], SinkMode='"independent"', thorough=dict(PeerBudget=2)),
+                # two slots, three calls, a deadline that passes while its call is being abandoned: capacity freed by a cancellation
+                cmodel("capacity-2", ["M_C02"], Callers="{1, 2, 3}", MaxInFlight=2, Buf=2, Deadlines="{1, 9}", MaxTime=1, PeerBudget=0)],
         families=[client_family([cexport("capacity", AllowEof=True, AllowHandleDrop=True),
                                  cexport("slow", SinkMode='"coupled"', cap_quick=800),
-                                 cexport("credit", SinkMode='"independent"', cap_quick=800)], 1500, 30000)],
+                                 cexport("credit", SinkMode='"independent"', cap_quick=800),
+                                 cexport("capacity-2", Callers="{1, 2, 3}", MaxInFlight=2, Buf=2, Deadlines="{1, 9}", MaxTime=1, PeerBudget=0,
+                                         cap_quick=1500)], 1500, 30000)],
         relevant=lambda e: count(e, "Call") >= 2 or has(e, "SinkBlock", "SinkCredit", "PeerEof", "Arm", "HandleDrop"),
     ),
     "C03": dict(
